@@ -6,6 +6,7 @@ wait.  Environment choices per execution (deviation-bounded): real length of eac
 +1/8 late, half = spurious early wake}, cost of each loop iteration {0, 1/8}.
 """
 import itertools
+import threading
 from datetime import datetime
 
 import circuits.core.helpers as helpers_mod
@@ -22,7 +23,7 @@ PROPERTY = 'C09'
 LEVEL = 'model_checking'
 RULE = ('program = set of 1-3 real Timer components (interval from {0, 1/2, 1, 5/2}, persistent or not, float or absolute datetime '
         'deadline, created at virtual time 0 or 1/2, optionally reset() or unregister()ed at a grid time) x background (event chain, '
-        'generator task) x (the handler of the timer event calls event.stop(), for persistent timers); every environment script with <= k deviations (idle wait late / spuriously early, loop iteration costing 1/8) '
+        'generator task) x (the handler of the timer event calls event.stop(), for persistent timers) x (another thread registering a one-shot timer half a second into an idle wait); every environment script with <= k deviations (idle wait late / spuriously early, loop iteration costing 1/8) '
         'is executed under the real run(); non-trivial = execution with at least one timer firing and one idle wait; '
         'distinct = distinct (program, environment script)')
 ASSUMPTIONS = [
@@ -54,7 +55,7 @@ class VEvent:
         w = CUR
         if w is None or self.flag:
             return self.flag
-        return w.idle_wait(timeout)
+        return w.idle_wait(timeout, self)
 
 
 class _VPoll:
@@ -140,6 +141,9 @@ class World:
             import circuits.core.pollers as pollers_mod
             self.poller = getattr(pollers_mod, program['mech'])().register(self.root)
         self.sink = BaseComponent().register(self.root)
+        self.specs = list(program['timers'])
+        # 'foreign': during the first idle wait of at least 1 s another thread registers a one-shot timer of that interval
+        self.foreign_pending = program.get('foreign') is not None
         self.horizon_t = 5.0
         self.horizon_iter = 60
         self.forever = False
@@ -213,7 +217,7 @@ class World:
             event.reduce_time_left(0)
         if self.actions:
             event.reduce_time_left(max(0.0, self.actions[0][0] - now))
-        done = (not self.actions and not due_actions and len(self.timers) == len(self.program['timers'])
+        done = (not self.actions and not due_actions and len(self.timers) == len(self.specs) and not self.foreign_pending
                 and all(g['dead'] for g in self.timers.values()) and not len(self.root))
         if self.forever or self.iter >= self.horizon_iter or now >= self.horizon_t or done:
             self.log.append(('driver-stop', now))
@@ -225,7 +229,7 @@ class World:
 
     def do(self, what, k, now):
         if what == 'create':
-            spec = self.program['timers'][k]
+            spec = self.specs[k]
             ev = Event.create('ttick', k)
             if spec['kind'] == 'datetime':
                 deadline = self.clock.now + spec['interval']
@@ -294,7 +298,7 @@ class World:
             g['pending'] = True      # it unregisters itself
 
     def describe(self, k):
-        return 'spec %r' % (self.program['timers'][k],)
+        return 'spec %r' % (self.specs[k],)
 
     # -- after the timers' own generate_events handlers (priority -50) -------------------------------
     def after_timers(self, event):
@@ -311,9 +315,29 @@ class World:
                 g['pending'] = False
 
     # -- idle wait (fallback generator) --------------------------------------------------------------
-    def idle_wait(self, timeout):
+    def idle_wait(self, timeout, vevent=None):
         self.nwaits += 1
         now = self.clock.now
+        if self.foreign_pending and vevent is not None and timeout is not None and 1.0 <= timeout < 10000:
+            # half a second into this wait another thread registers a one-shot timer; that has to end the wait (C03), so that
+            # the loop does not sleep past the new, earlier expiry
+            self.foreign_pending = False
+            self.clock.advance(0.5)
+            k = len(self.specs)
+            self.specs.append({'interval': self.program['foreign'], 'persist': False, 'kind': 'float', 'at': self.rel(), 'act': None})
+            th = threading.Thread(target=self.do, args=('create', k, self.rel()))
+            th.start()
+            th.join()
+            self.log.append(('foreign-timer', k, self.rel(), vevent.flag))
+            if vevent.flag:
+                return True
+            rest = timeout - 0.5
+            self.clock.advance(rest)
+            due = [g['expiry'] for g in self.timers.values() if not g['dead'] and not g['pending'] and g['expiry'] is not None]
+            if due and min(due) + 0.125 < self.clock.now:
+                self.bad.append(('oversleep', 'a timer registered by another thread at t=%r expires at %r, but the idle wait of %r s begun at %r '
+                                 'went on to its end' % (self.rel() - rest, min(due) - self.clock.BASE, timeout, now - self.clock.BASE)))
+            return False
         pend = [g['expiry'] for g in self.timers.values() if not g['dead'] and not g['pending'] and g['expiry'] is not None
                 and g['timer'].parent is not g['timer']]
         if timeout is None or timeout >= 10000:
@@ -368,7 +392,7 @@ def judge(w):
         bad.append(('harness', w.env.diverged))
     end = w.rel()
     for k, g in w.timers.items():
-        spec = w.program['timers'][k]
+        spec = w.specs[k]
         nf = len(g['fires'])
         # liveness: a one-shot that was never reset late / unregistered must have fired once within the horizon
         if not g['persist'] and nf == 0 and not spec['act'] and w.iter < w.horizon_iter and spec['at'] + spec['interval'] + 1.0 < end:
@@ -422,6 +446,11 @@ def programs(tier):
     for s in singles:
         if s['persist']:
             yield {'timers': [s], 'chain': False, 'task': False, 'stop': True}, k1
+    # a timer registered by another thread while the loop sleeps towards a later expiry
+    for s in singles:
+        if s['interval'] >= 1.0 and not s['act'] and s['kind'] == 'float':
+            for iv in (0.0, 0.25):
+                yield {'timers': [s], 'chain': False, 'task': False, 'foreign': iv}, k1
     # the same budget protocol through each poller's blocking call (seconds for select/epoll, milliseconds for poll)
     for mech in ('Select', 'Poll', 'EPoll'):
         for s in singles:
